@@ -28,6 +28,8 @@ pub struct PlainFns {
     s_plus: TypedFunc<NoCtx, fn(L, L) -> L>,
     s_concat: TypedFunc<NoCtx, fn(L, L) -> L>,
     s_len: TypedFunc<NoCtx, fn(L) -> u64>,
+    s_join: TypedFunc<NoCtx, fn(List<roto::RotoString>) -> roto::RotoString>,
+    s_from_chars: TypedFunc<NoCtx, fn(List<char>) -> roto::RotoString>,
     _pkg: roto::Package<NoCtx>,
     _rt: Runtime<NoCtx>,
 }
@@ -48,6 +50,8 @@ fn s_push(l: List[u64], x: u64) {{ l.push(x); }}
 fn s_plus(a: List[u64], b: List[u64]) -> List[u64] {{ a + b }}
 fn s_concat(a: List[u64], b: List[u64]) -> List[u64] {{ a.concat(b) }}
 fn s_len(l: List[u64]) -> u64 {{ l.len() }}
+fn s_join(l: List[String]) -> String {{ l.join(\",\") }}
+fn s_from_chars(l: List[char]) -> String {{ String.from_chars(l) }}
 "
     )
 }
@@ -60,7 +64,7 @@ pub fn build() -> Result<PlainFns, String> {
             pkg.get_function($n).map_err(|e| format!("{}: {e}", $n))?
         };
     }
-    Ok(PlainFns { s_make: get!("s_make"), s_get: get!("s_get"), s_push: get!("s_push"), s_plus: get!("s_plus"), s_concat: get!("s_concat"), s_len: get!("s_len"), _pkg: pkg, _rt: rt })
+    Ok(PlainFns { s_make: get!("s_make"), s_get: get!("s_get"), s_push: get!("s_push"), s_plus: get!("s_plus"), s_concat: get!("s_concat"), s_len: get!("s_len"), s_join: get!("s_join"), s_from_chars: get!("s_from_chars"), _pkg: pkg, _rt: rt })
 }
 
 #[derive(Clone, Copy, Debug, PartialEq)]
@@ -182,7 +186,52 @@ fn make(fns: &PlainFns, n: usize, full: bool) -> (L, Vec<u64>) {
     (l, want)
 }
 
+/// `join` and `from_chars` read the whole list: while another thread swaps elements, what they return is
+/// still made of every element exactly once (the list is a permutation of the same elements at every moment)
+fn whole_list_reads_during_swaps(fns: &Arc<PlainFns>) -> Result<(), String> {
+    let words = ["alpha", "beta", "gamma", "delta", "epsilon"];
+    let strs: List<roto::RotoString> = words.iter().map(|w| roto::RotoString::from(*w)).collect();
+    let chars: List<char> = "abcde".chars().collect();
+    let stop = Arc::new(AtomicBool::new(false));
+    std::thread::scope(|s| {
+        let (sw_s, sw_c, stop2) = (strs.clone(), chars.clone(), stop.clone());
+        let swapper = s.spawn(move || {
+            let mut k = 0usize;
+            while !stop2.load(Ordering::Relaxed) {
+                sw_s.swap(k % 5, (k + 2) % 5);
+                sw_c.swap((k + 1) % 5, (k + 3) % 5);
+                k += 1;
+            }
+        });
+        let mut res = Ok(());
+        for _ in 0..300 {
+            let joined = fns.s_join.call(strs.clone()).to_string();
+            let mut parts: Vec<&str> = joined.split(',').collect();
+            parts.sort();
+            if parts != ["alpha", "beta", "delta", "epsilon", "gamma"] {
+                res = Err(format!("join(\",\") during swaps returned {joined:?}: not every element exactly once"));
+                break;
+            }
+            let text = fns.s_from_chars.call(chars.clone()).to_string();
+            let mut cs: Vec<char> = text.chars().collect();
+            cs.sort();
+            if cs != ['a', 'b', 'c', 'd', 'e'] {
+                res = Err(format!("String.from_chars during swaps returned {text:?}: not every element exactly once"));
+                break;
+            }
+        }
+        stop.store(true, Ordering::Relaxed);
+        let _ = swapper.join();
+        res
+    })
+}
+
 pub fn run(fns: &Arc<PlainFns>, ctl: &[u8], render: bool) -> Outcome {
+    if ctl.first().map(|b| b % 8 == 5).unwrap_or(false) {
+        if let Err(e) = whole_list_reads_during_swaps(fns) {
+            return Outcome::fail("plain:whole-list-read-during-swaps", e);
+        }
+    }
     let cfg = decode(ctl);
     let text = describe(ctl);
     let t0 = std::time::Instant::now();
